@@ -1,7 +1,7 @@
 SPECIFICATION Spec
 CONSTANTS MsgSrc <- S3  MsgMid <- M3  MsgTot <- T3  CapSrc = 2  CapAll = 3  MaxDeliv = 6  MaxTick = 1
   GridP <- GP1  GridMM <- GM1
-  DecOnComplete = FALSE  DupCheck = TRUE  TotalCheck = TRUE  CapStrict = TRUE  GcOn = TRUE
+  DecOnComplete = FALSE  DupCheck = TRUE  TotalCheck = TRUE  CapStrict = TRUE  GcOn = TRUE  IdEarly = TRUE
 INVARIANT NoViolation
 
 VIEW View
